@@ -41,7 +41,7 @@ CLAIMED = {
          "For skeleton files of every family followed by up to 70000 (thorough 300000) bytes of pixel data the number of bytes the loader pulled from the source is <= needed+64KiB on every path, and the file truncated at `needed` loads to identical metadata.",
          "Trusted: executor, z3; `needed` is computed in the harness from the container layout. 64 MiB payloads are outside the bound; the argument is that the count of requested bytes does not depend on what follows.", "DESIGN.md 5 C18"),
  "C19": ("model_checking", "differential bounded symbolic execution: three specific loaders and autometa.Load on the same symbolic input in one path",
-         "auto's metadata/ICC/err-ness equals the first succeeding specific loader's, error without metadata when none succeeds, stream replays the input; over 12 arbitrary bytes, all skeleton families at every truncation, 9 polyglots, and a family of inputs longer than every internal buffer (4090..9000, thorough 70000, ancillary bytes per format).",
+         "auto's metadata/ICC/err-ness equals the first succeeding specific loader's, error without metadata when none succeeds, stream replays the input; over all inputs of every length up to 16 bytes, all skeleton families at every truncation, 9 polyglots, and a family of inputs longer than every internal buffer (4090..9000, thorough 70000, ancillary bytes per format).",
          "Trusted: executor, z3, deterministic zlib stub. The oracle is the specific loaders themselves (differential), as the property states.", "DESIGN.md 5 C19"),
  "C10": ("model_checking", "bounded symbolic execution of linear.TransformImageColor with all pixel bytes symbolic and a symbolically keyed per-colour function, compared byte-for-byte with a reference built by the standard library's Set; uninterpreted per-colour functions for the wiring of the 8 public transforms",
          "For each explored (source type, destination type, geometry, destination origin, parallelism) configuration and all pixel contents and keys at once, the destination parent's storage equals the reference (per-pixel function at dst.Min+(p-src.Min), everything else untouched); in-place use equals the function of the original pixels; each public image transform is TransformImageColor with its own package's per-colour function.",
